@@ -298,11 +298,10 @@ theorem orderOf_pos {xs : List Int} (h : orderOf xs > 0) : isAsc xs = true := by
     · split at h <;> omega
   · omega
 
-/-- The flag the WRITER computes is truthful: if the column index it builds (null pages stored as the
-    zero value `z`) is flagged ASCENDING, has no null page, and every page has `min ≤ max`, then it is
-    `Ascending` in the sense `binarySearch_first` needs. -/
-theorem writerOrder_ascending (z : Int) (ix : Index) (hlen : ix.maxs.length = ix.mins.length)
-    (hw : writerOrder z ix = 1) (hnn : hasNull ix = false)
+/-- adjacent-pair ascending stored bounds, no null bound, `min ≤ max` per page ⇒ `Ascending` -/
+theorem ascending_of_isAsc (z : Int) (ix : Index) (hlen : ix.maxs.length = ix.mins.length)
+    (hmn : isAsc (ix.mins.map (stored z)) = true) (hmx : isAsc (ix.maxs.map (stored z)) = true)
+    (hnn : hasNull ix = false)
     (hle : ∀ i a b, i < ix.n → minAt ix i = some a → maxAt ix i = some b → a ≤ b) :
     ∃ mn mx, Ascending ix mn mx := by
   simp only [hasNull, Bool.or_eq_false_iff] at hnn
@@ -311,17 +310,8 @@ theorem writerOrder_ascending (z : Int) (ix : Index) (hlen : ix.maxs.length = ix
   have hmax : ∀ i, i < ix.n → ∃ x, maxAt ix i = some x := fun i hi =>
     any_isNone_false_getD ix.maxs i hnn.2 (by simp only [Index.n] at hi; omega)
   refine ⟨fun i => (minAt ix i).getD 0, fun i => (maxAt ix i).getD 0, ?_⟩
-  -- both orderOf results are positive
-  have hpos : orderOf (ix.mins.map (stored z)) > 0 ∧ orderOf (ix.maxs.map (stored z)) > 0 := by
-    simp only [writerOrder, boundaryOrder] at hw
-    split at hw
-    · rename_i heq
-      split at hw
-      · rename_i hp; exact ⟨hp, by omega⟩
-      · split at hw <;> simp at hw
-    · simp at hw
-  have ha1 := isAsc_getD _ (orderOf_pos hpos.1)
-  have ha2 := isAsc_getD _ (orderOf_pos hpos.2)
+  have ha1 := isAsc_getD _ hmn
+  have ha2 := isAsc_getD _ hmx
   exact {
     len := hlen
     mins := fun i hi => by obtain ⟨x, hx⟩ := hmin i hi; simp [hx]
@@ -343,5 +333,33 @@ theorem writerOrder_ascending (z : Int) (ix : Index) (hlen : ix.maxs.length = ix
       obtain ⟨y, hy⟩ := hmax i hi
       have := hle i x y hi hx hy
       simpa [hx, hy] using this }
+
+/-- flagged ASCENDING by the writer ⇒ both stored bound lists pass the adjacent-pair check and there
+    are at least two pages (`orderOf` answers 0 for fewer) -/
+theorem writerOrder_one (z : Int) (ix : Index) (hw : writerOrder z ix = 1) :
+    isAsc (ix.mins.map (stored z)) = true ∧ isAsc (ix.maxs.map (stored z)) = true ∧ 1 < ix.n := by
+  have hpos : orderOf (ix.mins.map (stored z)) > 0 ∧ orderOf (ix.maxs.map (stored z)) > 0 := by
+    simp only [writerOrder, boundaryOrder] at hw
+    split at hw
+    · rename_i heq
+      split at hw
+      · rename_i hp; exact ⟨hp, by omega⟩
+      · split at hw <;> simp at hw
+    · simp at hw
+  refine ⟨orderOf_pos hpos.1, orderOf_pos hpos.2, ?_⟩
+  have h := hpos.1
+  unfold orderOf at h
+  split at h
+  · rename_i hl; simpa [Index.n] using hl
+  · omega
+
+/-- The flag the WRITER computes is truthful: if the column index it builds (null pages stored as the
+    zero value `z`) is flagged ASCENDING, has no null page, and every page has `min ≤ max`, then it is
+    `Ascending` in the sense `binarySearch_first` needs. -/
+theorem writerOrder_ascending (z : Int) (ix : Index) (hlen : ix.maxs.length = ix.mins.length)
+    (hw : writerOrder z ix = 1) (hnn : hasNull ix = false)
+    (hle : ∀ i a b, i < ix.n → minAt ix i = some a → maxAt ix i = some b → a ≤ b) :
+    ∃ mn mx, Ascending ix mn mx :=
+  ascending_of_isAsc z ix hlen (writerOrder_one z ix hw).1 (writerOrder_one z ix hw).2.1 hnn hle
 
 end PqModel.Search
